@@ -107,6 +107,8 @@ func parseValidatorTags(tag string) ([]validatorTag, error) {
 }
 
 func tryValidate(val reflect.Value) error {
+	// the value held in an interface is validated, not the interface
+	val = chaseValueInterfaces(val)
 	t := val.Type()
 	var validator Validator
 
